@@ -713,6 +713,15 @@ func genPlanC20(rt *rapid.T) c20Plan {
 			if len(b) > 1024 {
 				b = b[:1024]
 			}
+			if rapid.IntRange(0, 2).Draw(rt, "response-body-under-another-service") == 0 {
+				// the body of a matching response under a neighbouring service identifier (the extended variants 0x020b /
+				// 0x020c of the second protocol version, unassigned ones): another service, by construction
+				b = unhex(genMatch(rt, p.Call))
+				id := rapid.SampledFrom([]int{0x020b, 0x020c, 0x020d, 0x0200, 0x0206, 0x0207, 0x0208, 0x0302, 0x0a02}).Draw(rt, "neighbour-service")
+				if len(b) >= 6 {
+					b[2], b[3] = byte(id>>8), byte(id)
+				}
+			}
 			st.Hex = hex.EncodeToString(b)
 		case 6, 7:
 			st.Kind = "malformed"
